@@ -160,6 +160,25 @@ def _leg(ctx: Ctx, module: str, fn: str, maxops: int, props: str, what: str):
             ctx.nontrivial.add(jhash([module, c.get("cfg", c.get("start")), c.get("mode"), c["hist"]]))
         for b in bad:
             ctx.violation({"container": b["container"], "ordering": b.get("ordering"), "start": b.get("start", b.get("cfg")), "hist": b["hist"]}, b, kind="replay")
+    # deep histories: random behaviours of the same specification (tlc -simulate)
+    from ..tlc import simulate_emitted
+
+    deep = 8
+    sr, srecs = simulate_emitted(module, cfg.replace(f"MaxOps = {maxops}", f"MaxOps = {deep}"), "c19s", num=60 if ctx.quick else 1000, depth=deep + 2, seed=ctx.seed + 1)
+    if sr.violated:
+        ctx.model_violation(sr, module + " (simulation)")
+    seen = set()
+    uniq = [c for c in srecs if len(c["hist"]) > maxops and (k := json.dumps([c.get("cfg", c.get("start")), c.get("mode"), c["hist"]], sort_keys=True)) not in seen and not seen.add(k)]
+    sres = pmap("harness.props.c19_hist", fn, uniq, chunk=500)
+    for c, bad in zip(uniq, sres):
+        ctx.traces += 1
+        ctx.evaluations += 1
+        ctx.nontrivial.add(jhash([module, c.get("cfg", c.get("start")), c.get("mode"), c["hist"]]))
+        for b in bad:
+            ctx.violation({"container": b["container"], "ordering": b.get("ordering"), "start": b.get("start", b.get("cfg")), "hist": b["hist"]}, b, kind="replay")
+    ctx.require(f"{module}: simulated histories longer than the exhaustive bound", len(uniq), 300)
+    ctx.tlc_runs.append({"module": module, "what": f"-simulate: random histories of <= {deep} operations", "generated": sr.generated, "distinct": len(uniq), "depth": deep,
+                         "wall_s": round(sr.wall_s, 2)})
     mid = [c for c in cases if len(c["hist"]) == maxops][:1]
     for c in mid:
         ctx.sample({module: {"history": c["hist"], "expected": c.get("items", c.get("terms"))}})
